@@ -12,8 +12,12 @@ fn nth_string(mut i: u64, len: usize) -> String {
 
 /// Reference semantics written from the doc comments of `SourceInfo`.
 fn check(src: &str) -> Option<(String, String)> {
-    let r = catch(|| -> Result<(), (String, String)> {
-        let si = SourceInfo::new(src);
+    let r = catch(|| -> Result<(), (String, String)> { let si = SourceInfo::new(src); check_info(&si, src) });
+    match r { Ok(Ok(())) => None, Ok(Err(e)) => Some(e), Err(p) => Some((format!("panic:{}", panic_site(&p)), p)) }
+}
+/// The reference semantics applied to any `SourceInfo` (also those produced by linking and by the object-file readers).
+pub fn check_info(si: &SourceInfo, src: &str) -> Result<(), (String, String)> {
+    {
         // lines: split at '\n'
         let mut starts = vec![0usize];
         for (i, b) in src.bytes().enumerate() { if b == b'\n' { starts.push(i + 1); } }
@@ -50,13 +54,12 @@ fn check(src: &str) -> Option<(String, String)> {
             }
         }
         Ok(())
-    });
-    match r { Ok(Ok(())) => None, Ok(Err(e)) => Some(e), Err(p) => Some((format!("panic:{}", panic_site(&p)), p)) }
+    }
 }
 
 pub fn run(ctx: &Ctx) -> Report {
     let maxlen = ctx.pick(6usize, 9usize);
-    let mut rep = Report::new("all strings of length 0..=L over {a, space, TAB, LF, CR, e-acute}; for each: count_lines, every line's span/text, get_pos_pair at every index 0..=len+10, against a reference written from the doc comments; non-trivial = string containing a newline and a non-newline character");
+    let mut rep = Report::new("all strings of length 0..=L over {a, space, TAB, LF, CR, e-acute}; for each: count_lines, every line's span/text, get_pos_pair at every index 0..=len+10, against a reference written from the doc comments; the same reference applied to the SourceInfo of linked object files (2-3 debug-symbol files whose texts carry every combination of 8 leading/trailing affixes: nothing, LF, CRLF, blanks, blank lines, comments) and of their binary/text round trips; non-trivial = string containing a newline and a non-newline character");
     for len in 0..=maxlen {
         let n = 6u64.pow(len as u32);
         let r = sweep(ctx, n, 4096, |i, acc| {
@@ -69,11 +72,13 @@ pub fn run(ctx: &Ctx) -> Report {
         });
         rep.absorb(r);
     }
+    super::linksrc::run_for(ctx, &mut rep, "C25");
     rep.bound("max_length", Json::i(maxlen as u64));
     rep.require(rep.acc.outcomes.len() >= 6, "texts with 0..several newlines seen");
     rep
 }
 pub fn replay(case: &str) -> Option<String> {
+    if case.starts_with("ls:") { return super::linksrc::replay_for("C25", case); }
     let b = unhex(case)?; let s = String::from_utf8(b).ok()?;
     check(&s).map(|x| x.1)
 }
